@@ -883,3 +883,46 @@ def _sx_fstr2(self, parts):
 
 
 SX.fstr = _sx_fstr2
+
+
+# ---- tuples that contain proxies as dict keys / members -----------------------------------------------
+Rope.__hash__ = lambda self: 0x5B57
+
+
+def _proxyish(x):
+    return isinstance(x, (BStr, Rope, SInt)) or (isinstance(x, tuple) and any(_proxyish(y) for y in x))
+
+
+def _eq_proxy(a, b):
+    """bool(a == b) where tuples are compared element-wise through the proxies' symbolic equality (forks)"""
+    if isinstance(a, tuple) or isinstance(b, tuple):
+        if not (isinstance(a, tuple) and isinstance(b, tuple)) or len(a) != len(b):
+            return False
+        return all(_eq_proxy(x, y) for x, y in zip(a, b))
+    r = (a == b) if _proxyish(a) else (b == a)
+    return bool(r)
+
+
+_contains_prev2 = SX.contains
+
+
+def _sx_contains3(self, item, container):
+    if isinstance(item, tuple) and _proxyish(item) and not isinstance(container, (str, BStr, Rope)):
+        return any(_eq_proxy(item, c) for c in container)
+    return _contains_prev2(self, item, container)
+
+
+SX.contains = _sx_contains3
+_getitem_prev2 = SX.getitem
+
+
+def _sx_getitem3(self, obj, key):
+    if isinstance(key, tuple) and _proxyish(key) and isinstance(obj, dict):
+        for k, v in obj.items():
+            if _eq_proxy(key, k):
+                return v
+        raise KeyError("<symbolic tuple>")
+    return _getitem_prev2(self, obj, key)
+
+
+SX.getitem = _sx_getitem3
